@@ -77,6 +77,8 @@ pub struct SatHub {
     pub dpll_fallbacks: u64,
     pub steps: u64,
     pub harness_error: Option<String>,
+    /// digest snapshot taken at the start of every SAT call (prefix identity checks)
+    pub call_digests: Vec<Digest>,
 }
 
 pub type Hub = Rc<RefCell<SatHub>>;
@@ -100,6 +102,7 @@ pub fn new_hub(cfg: OracleCfg) -> Hub {
         dpll_fallbacks: 0,
         steps: 0,
         harness_error: None,
+        call_digests: vec![],
     }))
 }
 
@@ -173,6 +176,8 @@ impl SatSolver for SimSat {
         let mut hub = self.hub.borrow_mut();
         hub.calls += 1;
         let call = hub.calls;
+        let snap = hub.digest;
+        hub.call_digests.push(snap);
         hub.instances[self.inst].calls += 1;
         hub.digest.u64(0x501E ^ ((self.inst as u64) << 32) ^ call);
         for l in &a {
@@ -264,8 +269,9 @@ impl SatSolver for SimSat {
                 if !self.dpll.check_model(&assign, &a) {
                     hub.harness_error = Some(format!("SimSat produced a non-model (inst {} call {})", self.inst, call));
                 }
-                let mut model: Vec<Option<bool>> = Vec::with_capacity(n_vars);
-                for v in 1..=n_vars {
+                let reported = self.n_vars_with(&cfg);
+                let mut model: Vec<Option<bool>> = Vec::with_capacity(reported);
+                for v in 1..=reported {
                     let x = if v < assign.len() { assign[v] } else { 0 };
                     model.push(match x {
                         1 => Some(true),
@@ -317,12 +323,7 @@ impl SatSolver for SimSat {
 
     fn n_vars(&self) -> usize {
         let cfg = self.hub.borrow().cfg;
-        let base = self.dpll.max_var.max(self.reserved);
-        if cfg.nvars_counts_assumed {
-            base.max(self.max_assumed)
-        } else {
-            base
-        }
+        self.n_vars_with(&cfg)
     }
 
     fn add_listener(&mut self, listener: Box<dyn SolvingListener>) {
@@ -337,6 +338,15 @@ impl SatSolver for SimSat {
 }
 
 impl SimSat {
+    fn n_vars_with(&self, cfg: &OracleCfg) -> usize {
+        let base = self.dpll.max_var.max(self.reserved);
+        if cfg.nvars_counts_assumed {
+            base.max(self.max_assumed)
+        } else {
+            base
+        }
+    }
+
     /// number of variables a model must cover: everything declared or assumed
     fn n_vars_full(&self) -> usize {
         self.dpll.max_var.max(self.reserved).max(self.max_assumed)
@@ -399,6 +409,8 @@ pub fn ext_factory(hub: &Hub, chub: &CHub) -> Box<dyn Fn() -> Box<dyn SatSolver>
             let mut c = chub.borrow_mut();
             h.calls += 1;
             let call = h.calls;
+            let snap = h.digest;
+            h.call_digests.push(snap);
             h.instances[inst].calls += 1;
             h.digest.u64(0xE501E ^ ((inst as u64) << 32) ^ call);
             h.digest.str(&input);
